@@ -20,101 +20,136 @@ structure PersistSpec (s : MState) (k : Bytes) (m : Meta) (v : Val) (r : MState 
   ok : r.2.2 = true → s.failSet = 0 ∧ r.1.failSet = 0 ∧ r.2.1.stored = some m.exp ∧
     AList.get? r.1.disk (encodeKey k m.exp) = some (newEnt s k m v) ∧
     ∀ dk e, AList.get? r.1.disk dk = some e → e.name = k → dk = encodeKey k m.exp
-  fail : r.2.2 = false → 0 < s.failSet ∧ r.1.failSet = s.failSet - 1 ∧
-    ((r.2.1.stored = m.stored ∧ r.1.disk = s.disk) ∨
-     (r.2.1.stored = none ∧ ∀ dk e, AList.get? r.1.disk dk = some e → e.name ≠ k))
+  /-- a failed write changes neither the backend nor the record -/
+  fail : r.2.2 = false → 0 < s.failSet ∧ r.1.failSet = s.failSet - 1 ∧ r.2.1 = m ∧ r.1.disk = s.disk
 
-def phase1 (s : MState) (k : Bytes) (m : Meta) : MState × Meta :=
+/-- second step of `persist` (after the successful write): drop the entry filed under another deadline -/
+def phase2 (s : MState) (k : Bytes) (m : Meta) : MState :=
   match m.stored with
-  | some e => if e ≠ m.exp then (diskDelete s k e, { m with stored := none }) else (s, m)
-  | none => (s, m)
+  | some e => if e ≠ m.exp then diskDelete s k e else s
+  | none => s
 
-theorem persist_eq (s : MState) (k : Bytes) (m : Meta) :
-    persist s k m = ((diskSet (phase1 s k m).1 k (phase1 s k m).2).1,
-      if (diskSet (phase1 s k m).1 k (phase1 s k m).2).2 then
-        { (phase1 s k m).2 with stored := some (phase1 s k m).2.exp } else (phase1 s k m).2,
-      (diskSet (phase1 s k m).1 k (phase1 s k m).2).2) := by
-  unfold persist phase1
-  cases m.stored with
-  | none => rfl
-  | some e => by_cases he : e = m.exp <;> simp [he]
+/-- a failed backend write: nothing but the fault counter changes -/
+theorem persist_fail (s : MState) (k : Bytes) (m : Meta) (hf : s.failSet > 0) :
+    persist s k m = ({ s with failSet := s.failSet - 1 }, m, false) := by
+  unfold persist diskSet
+  rw [if_pos hf]
+  rfl
+
+theorem persist_ok (s : MState) (k : Bytes) (m : Meta) (v : Val) (hf : ¬ s.failSet > 0) (hv : m.value = some v) :
+    persist s k m =
+      (phase2 { s with disk := AList.set s.disk (encodeKey k m.exp) (newEnt s k m v) } k m,
+       { m with stored := some m.exp }, true) := by
+  unfold persist diskSet phase2 newEnt
+  rw [if_neg hf, hv]
+  rfl
+
+/-- whatever the record: a failed `persist` leaves the backend and the record as they were -/
+theorem persist_false (s : MState) (k : Bytes) (m : Meta) (h : (persist s k m).2.2 = false) :
+    persist s k m = ({ s with failSet := s.failSet - 1 }, m, false) := by
+  by_cases hf : s.failSet > 0
+  · exact persist_fail s k m hf
+  · exfalso
+    revert h
+    unfold persist diskSet
+    rw [if_neg hf]
+    cases m.value <;> simp
 
 theorem persist_spec {s : MState} {x : Option Bytes} {t : Int} (h : StoreInvX s x t) {k : Bytes} {m : Meta}
     (hm : AList.get? s.index k = some m) {v : Val} (hv : m.value = some v) :
     PersistSpec s k m v (persist s k m) := by
   have r := h.recs k m hm
-  -- phase 1: drop the entry filed under another deadline
-  have ph1 : ∃ s1 m1, phase1 s k m = (s1, m1) ∧
-      s1.index = s.index ∧ s1.pebble = s.pebble ∧ s1.nextId = s.nextId ∧ s1.failSet = s.failSet ∧
-      AList.Sorted s1.disk ∧
-      (∀ dk e, e.name ≠ k → (AList.get? s1.disk dk = some e ↔ AList.get? s.disk dk = some e)) ∧
-      m1 = { m with stored := m1.stored } ∧
-      ((m1.stored = m.stored ∧ s1.disk = s.disk ∧ (m.stored = none ∨ m.stored = some m.exp)) ∨
-       (m1.stored = none ∧ ∀ dk e, AList.get? s1.disk dk = some e → e.name ≠ k)) := by
-    cases hs : m.stored with
-    | none =>
-      exact ⟨s, m, by simp [phase1, hs], rfl, rfl, rfl, rfl, h.diskSorted, fun _ _ _ => Iff.rfl, by cases m; rfl,
-        Or.inl ⟨hs, rfl, Or.inl rfl⟩⟩
-    | some e0 =>
-      by_cases he : e0 = m.exp
-      · subst he
-        refine ⟨s, m, by simp [phase1, hs], rfl, rfl, rfl, rfl, h.diskSorted, fun _ _ _ => Iff.rfl, by cases m; rfl,
-          Or.inl ⟨hs, rfl, Or.inr rfl⟩⟩
-      · obtain ⟨u1, u2, u3, u4, u5, u6⟩ := unpersist_spec h hm
-        have hu : unpersist s k m = diskDelete s k e0 := by simp [unpersist, hs]
-        rw [hu] at u1 u2 u3 u4 u5 u6
-        refine ⟨diskDelete s k e0, { m with stored := none }, by simp [phase1, hs, he], u1, u2, u3, u4, u5, ?_, rfl,
-          Or.inr ⟨rfl, fun dk e he' => ((u6 dk e).mp he').2⟩⟩
-        intro dk e hn
-        rw [u6]
-        exact ⟨fun a => a.1, fun a => ⟨a, hn⟩⟩
-  obtain ⟨s1, m1, e1, i1, p1, n1, f1, so1, o1, rc1, d1⟩ := ph1
-  have hm1v : m1.value = some v := by rw [rc1]; exact hv
-  have hm1e : m1.exp = m.exp := by rw [rc1]
-  have hm1o : m1.oid = m.oid := by rw [rc1]
-  have hm1k : m1.kid = m.kid := by rw [rc1]
-  rw [persist_eq, e1]
-  simp only [diskSet]
-  by_cases hf : s1.failSet > 0
-  · rw [if_pos hf]
-    simp only [Bool.false_eq_true, if_false]
-    refine ⟨i1, p1, n1, so1, o1, rc1, (fun c => by cases c), fun _ => ⟨by omega, by simp [f1], ?_⟩⟩
-    rcases d1 with ⟨a, b, _⟩ | ⟨a, b⟩
-    · exact Or.inl ⟨a, b⟩
-    · exact Or.inr ⟨a, b⟩
-  · rw [if_neg hf, hm1v]
-    simp only [if_true]
+  by_cases hf : s.failSet > 0
+  · rw [persist_fail s k m hf]
+    exact ⟨rfl, rfl, rfl, h.diskSorted, fun _ _ _ => Iff.rfl, by cases m; rfl, (fun c => by cases c),
+      fun _ => ⟨hf, rfl, rfl, rfl⟩⟩
+  · rw [persist_ok s k m v hf hv]
     have hf0 : s.failSet = 0 := by omega
-    have hi : inInt64 m1.exp = true := by rw [hm1e]; exact r.expR
-    refine ⟨i1, p1, n1, set_preserves_sorted _ so1 _ _, ?_, ?_, fun _ => ⟨hf0, by simp [f1, hf0], by simp [hm1e], ?_, ?_⟩,
-      (fun c => by cases c)⟩
+    have hi : inInt64 m.exp = true := r.expR
+    have so1 : AList.Sorted (AList.set s.disk (encodeKey k m.exp) (newEnt s k m v)) :=
+      set_preserves_sorted _ h.diskSorted _ _
+    -- the final backend: the old one with the new entry, minus the entry under another deadline
+    have ph2 : ∃ s2, phase2 { s with disk := AList.set s.disk (encodeKey k m.exp) (newEnt s k m v) } k m = s2 ∧
+        s2.index = s.index ∧ s2.pebble = s.pebble ∧ s2.nextId = s.nextId ∧ s2.failSet = s.failSet ∧
+        AList.Sorted s2.disk ∧
+        (∀ dk, AList.get? s2.disk dk =
+          if dk = encodeKey k m.exp then some (newEnt s k m v)
+          else if m.stored = some m.exp ∨ m.stored = none then AList.get? s.disk dk
+          else if ∃ e0, m.stored = some e0 ∧ dk = encodeKey k e0 then none else AList.get? s.disk dk) := by
+      cases hs : m.stored with
+      | none =>
+        refine ⟨{ s with disk := AList.set s.disk (encodeKey k m.exp) (newEnt s k m v) }, by simp [phase2, hs],
+          rfl, rfl, rfl, rfl, so1, fun dk => ?_⟩
+        simp [get?_set]
+      | some e0 =>
+        by_cases he : e0 = m.exp
+        · subst he
+          refine ⟨{ s with disk := AList.set s.disk (encodeKey k m.exp) (newEnt s k m v) }, by simp [phase2, hs],
+            rfl, rfl, rfl, rfl, so1, fun dk => ?_⟩
+          simp [get?_set]
+        · have hi0 := h.stored_int hm hs
+          have hne : encodeKey k e0 ≠ encodeKey k m.exp := fun c => he (encodeKey_inj hi0 hi c).2
+          refine ⟨diskDelete { s with disk := AList.set s.disk (encodeKey k m.exp) (newEnt s k m v) } k e0,
+            by simp [phase2, hs, he], rfl, rfl, rfl, rfl, erase_preserves_sorted _ so1 _, fun dk => ?_⟩
+          simp only [diskDelete]
+          rw [get?_erase _ so1, get?_set]
+          have he' : ¬ m.exp = e0 := fun c => he c.symm
+          by_cases hd : dk = encodeKey k m.exp
+          · subst hd
+            simp [hne.symm]
+          · by_cases hd0 : dk = encodeKey k e0
+            · subst hd0; simp [hne, he]
+            · simp [hd, hd0, he]
+    obtain ⟨s2, e2, i2, p2, n2, f2, so2, g2⟩ := ph2
+    rw [e2]
+    -- entries of the old backend named `k` sit under the deadline the record remembers
+    have hold : ∀ dk e, AList.get? s.disk dk = some e → e.name = k →
+        m.stored = some e.exp ∧ dk = encodeKey k e.exp := by
+      intro dk e he hn
+      have := h.ent_of_name he (by rw [hn]; exact hm)
+      exact ⟨this.1, by rw [this.2, hn]⟩
+    refine ⟨i2, p2, n2, so2, ?_, rfl, fun _ => ⟨hf0, by rw [f2, hf0], rfl, ?_, ?_⟩, (fun c => by cases c)⟩
     · intro dk e hn
-      simp only [get?_set]
-      by_cases hd : dk = encodeKey k m1.exp
+      rw [g2]
+      by_cases hd : dk = encodeKey k m.exp
       · subst hd
         simp only [if_true]
         constructor
         · intro hc; simp only [Option.some.injEq] at hc; subst hc; exact absurd rfl hn
         · intro hc
           exact absurd (h.ent_at hi hc).1 hn
-      · simp only [hd, if_false]; exact o1 dk e hn
-    · rw [hm1e]; cases m1; simp_all
-    · simp only [get?_set, hm1e, if_true, newEnt, p1, hm1o, hm1k]
+      · simp only [hd, if_false]
+        split
+        · exact Iff.rfl
+        · split
+          · rename_i hex
+            obtain ⟨e0, hs, hd0⟩ := hex
+            constructor
+            · intro hc; cases hc
+            · intro hc
+              rw [hd0] at hc
+              exact absurd (h.ent_at (h.stored_int hm hs) hc).1 hn
+          · exact Iff.rfl
+    · rw [g2]; simp
     · intro dk e he hn
-      simp only [get?_set] at he
-      by_cases hd : dk = encodeKey k m1.exp
-      · rw [hd, hm1e]
-      · simp only [hd, if_false] at he
-        rcases d1 with ⟨a, b, c⟩ | ⟨a, b⟩
-        · rw [b] at he
-          have := h.ent_of_name he (by rw [hn]; exact hm)
-          rcases c with c | c
-          · rw [c] at this; cases this.1
-          · rw [c] at this
-            have h2 : m.exp = e.exp := by simpa using this.1
-            rw [this.2, hn, ← h2, ← hm1e] at hd
-            exact absurd rfl hd
-        · exact absurd hn (b dk e he)
+      rw [g2] at he
+      by_cases hd : dk = encodeKey k m.exp
+      · exact hd
+      · exfalso
+        simp only [hd, if_false] at he
+        split at he
+        · rename_i hst
+          obtain ⟨a, b⟩ := hold dk e he hn
+          rcases hst with hst | hst
+          · rw [hst] at a
+            have : m.exp = e.exp := by simpa using a
+            exact hd (by rw [b, this])
+          · rw [hst] at a; cases a
+        · split at he
+          · cases he
+          · rename_i hex
+            obtain ⟨a, b⟩ := hold dk e he hn
+            exact hex ⟨e.exp, a, b⟩
 
 /-! ### one step of a pass: the backend changes only under `k`, the record of `k` is replaced -/
 
@@ -327,20 +362,17 @@ theorem gcStep_spec {s : MState} {t now : Int} (h : StoreInvX s none t) (ht : t 
         · apply step_put h hm i1 p1 n1 so others hm1o
           · refine RecInv.hot (v := v) hm1v hok1 (by rw [hm1e]; exact r.expR) (r.good v hv) ?_ (Or.inl hmod1)
             intro e he
-            rcases pf with ⟨a, b⟩ | ⟨a, _⟩
-            · rw [a] at he; rw [b]; exact r.stored e he
-            · rw [a] at he; cases he
+            obtain ⟨a, b⟩ := pf
+            rw [a] at he; rw [b]; exact r.stored e he
           · intro dk e he hn
-            rcases pf with ⟨a, b⟩ | ⟨_, b⟩
-            · rw [b] at he
-              have q := h.ents dk e he
-              have := h.ent_of_name he (by rw [hn]; exact hm)
-              exact ⟨by rw [q.key, hn], q.expR, q.good, by rw [a]; exact this.1⟩
-            · exact absurd hn (b dk e he)
+            obtain ⟨a, b⟩ := pf
+            rw [b] at he
+            have q := h.ents dk e he
+            have := h.ent_of_name he (by rw [hn]; exact hm)
+            exact ⟨by rw [q.key, hn], q.expR, q.good, by rw [a]; exact this.1⟩
           · intro _ dk e he hn
-            rcases pf with ⟨_, b⟩ | ⟨_, b⟩
-            · rw [b] at he; exact Or.inr ⟨dk, e, he, hn, rfl⟩
-            · exact absurd hn (b dk e he)
+            obtain ⟨_, b⟩ := pf
+            rw [b] at he; exact Or.inr ⟨dk, e, he, hn, rfl⟩
         · intro k' hk; simp only [putMeta, i1, get?_set, hk, if_false]
         · intro t' ht' k'
           by_cases hk : k' = k
@@ -499,20 +531,17 @@ theorem put_after_persist {s : MState} {t now : Int} (h : StoreInvX s none t) (h
     apply step_put h hm i1 p1 n1 so others hm1o
     · refine RecInv.hot (v := v) hm1v hok1 (by rw [hm1e]; exact r.expR) (r.good v hv) ?_ (Or.inl hmod1)
       intro e he
-      rcases pf with ⟨a, b⟩ | ⟨a, _⟩
-      · rw [a] at he; rw [b]; exact r.stored e he
-      · rw [a] at he; cases he
+      obtain ⟨a, b⟩ := pf
+      rw [a] at he; rw [b]; exact r.stored e he
     · intro dk e he hn
-      rcases pf with ⟨a, b⟩ | ⟨_, b⟩
-      · rw [b] at he
-        have q := h.ents dk e he
-        have := h.ent_of_name he (by rw [hn]; exact hm)
-        exact ⟨by rw [q.key, hn], q.expR, q.good, by rw [a]; exact this.1⟩
-      · exact absurd hn (b dk e he)
+      obtain ⟨a, b⟩ := pf
+      rw [b] at he
+      have q := h.ents dk e he
+      have := h.ent_of_name he (by rw [hn]; exact hm)
+      exact ⟨by rw [q.key, hn], q.expR, q.good, by rw [a]; exact this.1⟩
     · intro _ dk e he hn
-      rcases pf with ⟨_, b⟩ | ⟨_, b⟩
-      · rw [b] at he; exact Or.inr ⟨dk, e, he, hn, rfl⟩
-      · exact absurd hn (b dk e he)
+      obtain ⟨_, b⟩ := pf
+      rw [b] at he; exact Or.inr ⟨dk, e, he, hn, rfl⟩
   | true =>
     obtain ⟨_, k0, k1, k2, k3⟩ := pok rfl
     have hnew : ∀ dk e, AList.get? s1.disk dk = some e → e.name = k →
